@@ -1101,6 +1101,15 @@ pub fn run_beh<A: Adapter>(beh: &Beh) -> Obs {
             pp = y;
         }
     }
+    let want_digests = std::env::var("PCV_DIGESTS").is_ok();
+    let dig = |x: &dyn Fn(&mut Vec<u8>)| -> String {
+        let mut b = vec![];
+        x(&mut b);
+        sha_full(&b)
+    };
+    if want_digests {
+        obs.digests.push(("pp".into(), dig(&|b| pp.serialize_compressed(b).unwrap())));
+    }
     // trim
     let bounds: Option<Vec<usize>> = if beh.nobounds {
         None
@@ -1123,6 +1132,10 @@ pub fn run_beh<A: Adapter>(beh: &Beh) -> Obs {
             return obs;
         }
     };
+    if want_digests {
+        obs.digests.push(("ck".into(), dig(&|b| ck.serialize_compressed(b).unwrap())));
+        obs.digests.push(("vk".into(), dig(&|b| vk.serialize_compressed(b).unwrap())));
+    }
     for m in ser_of("ck") {
         if let Some(y) = roundtrip(&ck, m, "committer key", &mut ser_errors, &mut ser_checks) {
             ck = y;
@@ -1159,6 +1172,10 @@ pub fn run_beh<A: Adapter>(beh: &Beh) -> Obs {
             return obs;
         }
     };
+    if want_digests {
+        obs.digests.push(("comms".into(), dig(&|b| for c in comms.iter() { c.commitment().serialize_compressed(&mut *b).unwrap(); })));
+        obs.digests.push(("states".into(), dig(&|b| for s in states.iter() { s.serialize_compressed(&mut *b).unwrap(); })));
+    }
     for m in ser_of("comm") {
         for c in comms.iter_mut() {
             if let Some(y) = roundtrip(c.commitment(), m, "commitment", &mut ser_errors, &mut ser_checks) {
@@ -1212,6 +1229,17 @@ pub fn run_beh<A: Adapter>(beh: &Beh) -> Obs {
         match pr {
             Out::Ok(mut p) => {
                 sess.sp_p = sp;
+                if want_digests {
+                    let d = match &p {
+                        ProofObj::Single(x) => dig(&|b| x.serialize_compressed(b).unwrap()),
+                        ProofObj::Batch(v, e) => dig(&|b| {
+                            let bp: BProof<A> = v.clone().into();
+                            bp.serialize_compressed(&mut *b).unwrap();
+                            e.serialize_compressed(&mut *b).unwrap();
+                        }),
+                    };
+                    obs.digests.push((format!("proof{}", i + 1), d));
+                }
                 for m in ser_of("proof") {
                     p = match p {
                         ProofObj::Single(x) => ProofObj::Single(roundtrip(&x, m, "proof", &mut ser_errors, &mut ser_checks).unwrap_or(x)),
@@ -1312,6 +1340,10 @@ pub fn run_beh<A: Adapter>(beh: &Beh) -> Obs {
         sess.sp_v = sp1;
         obs.ops[i].lockstep = sess.sp_v.state_digest() == sp_after_p[i];
         let _ = op;
+    }
+    if want_digests {
+        let decs: Vec<String> = obs.ops.iter().map(|o| o.check.clone()).collect();
+        obs.digests.push(("decisions".into(), sha_full(decs.join(",").as_bytes())));
     }
     obs.ser_errors = ser_errors;
     obs.ser_checks = ser_checks;
